@@ -113,7 +113,16 @@ pub fn apply(ops: &[Op], remote_addr: SocketAddr) -> Result<(Builder, Model), St
             Op::Flags(bits) => {
                 m.retain = false;
                 m.flags = *bits;
-                b.isi_flags(IsiFlags::from_bits_truncate(*bits))
+                // every other time the value is built the long way round: a full set, cleared, then the wanted bits inserted
+                // (IsiFlags::clear is the crate's own helper)
+                if bits % 2 == 0 {
+                    b.isi_flags(IsiFlags::from_bits_truncate(*bits))
+                } else {
+                    let mut f = IsiFlags::from_bits_truncate(0xffff);
+                    f.clear();
+                    f.insert(IsiFlags::from_bits_truncate(*bits));
+                    b.isi_flags(f)
+                }
             },
             Op::Prefix(p) => {
                 m.prefix = *p;
@@ -540,7 +549,7 @@ fn op_strategy(with_transport: bool) -> impl Strategy<Value = Op> {
     };
     prop_oneof![
         6 => (0usize..10, any::<bool>()).prop_map(|(i, b)| Op::Flag(i, b)),
-        2 => prop_oneof![any::<u16>().prop_map(|b| Op::Flags(b & 0x0ffc)), any::<u16>().prop_map(Op::FlagsRetain)],
+        2 => prop_oneof![any::<u16>().prop_map(|b| Op::Flags(b & 0x0ffd)), any::<u16>().prop_map(Op::FlagsRetain)],
         1 => prop_oneof![Just(None), (0x21u8..0x7f).prop_map(Some)].prop_map(Op::Prefix),
         1 => prop_oneof![2 => Just(None), 4 => (0u64..65536).prop_map(Some), 1 => Just(Some(65535u64)), 1 => Just(Some(65536u64)), 1 => (65536u64..4_000_000).prop_map(Some),
             // values a narrowing step would wrap into the 16-bit field
